@@ -244,6 +244,17 @@ def programs(tier, rnd):
         return m
     lp('socp', m3)
 
+    def m3b():
+        # several second-order cones of DIFFERENT sizes (the cone table is cut by cumulative lengths)
+        m = ro.Model()
+        x = m.dvar(2)
+        y = m.dvar(3)
+        w = m.dvar(4)
+        m.max(x[0] + 2 * x[1] + y.sum() - w[3])
+        m.st(rso.norm(x, 2) <= 1, rso.norm(y, 2) <= 2, rso.norm(w[0:3], 2) <= w[3], w[3] <= 3, rso.norm(x - y[0:2], 2) <= 2.5)
+        return m
+    lp('socp-cones-of-different-sizes', m3b)
+
     def m4():
         m = ro.Model()
         x = m.dvar(2)
